@@ -33,6 +33,7 @@ FLOORS = {f"ptseg_class:{c}": 150 for c in PT_CLASSES}
 FLOORS.update({"ptseg_judged": 4000, "segseg_judged": 2500, "box_judged": 800, "dest_judged": 4000,
                "bucket_clamped": 1000, "bucket_inside": 1000, "bucket_south": 1500, "bucket_north": 1500,
                "segseg_crossing": 100})
+FLOORS["dest_long_distance"] = 3000
 FLOORS_FIXED = {"oracle_selfcheck_planar": 100, "oracle_selfcheck_sampling": 30}
 ASSUMPTIONS = ["tolerances: distance() 1 mm + 1e-9 rel; point/segment 0.25 m (the cross-/along-track formulation has an "
                "intrinsic R*sqrt(eps) ~ 0.1 m noise floor); segment/segment 0.25 m + 2*ext^2*(1+tan|lat|)/R (analytic bound "
@@ -48,6 +49,14 @@ def _place(rng):
 def gen_case(rng, i, tier):
     r = rng.random()
     a = _place(rng)
+    if rng.random() < 0.04:
+        # "distance is the great-circle distance": also beyond street scale (5 km .. 3000 km), staying away from the poles
+        # and the antimeridian
+        for _ in range(20):
+            a = (rng.uniform(-60, 60), rng.uniform(-140, 140))
+            b = rg.gc_dest(a, rng.uniform(0, 360), 10 ** rng.uniform(3.7, 6.5))
+            if abs(b[0]) < 80 and abs(b[1]) < 175 and abs(b[1] - a[1]) < 170:
+                return {"fn": "dest", "cls": "long", "a": a, "b": b}
     L = 10 ** rng.uniform(-1, 3.7)
     brg = rng.choice([0, 90, 180, 270, 45, rng.uniform(0, 360), rng.uniform(0, 360)])
     b = rg.gc_dest(a, brg, L)
@@ -73,7 +82,22 @@ def gen_case(rng, i, tier):
             p = rng.choice([a, b])
         return {"fn": "ptseg", "cls": cls, "a": a, "b": b, "p": p, "L": L}
     if r < 0.85:
-        kind = rng.choice(["random", "random", "crossing", "parallel", "tjunction", "far"])
+        kind = rng.choice(["random", "random", "crossing", "parallel", "tjunction", "far", "shared_end", "shared_end", "identical"])
+        if kind == "shared_end":
+            # consecutive roads: the two segments share one end point bit for bit, in one of the four orientations
+            # (f1==t1, f1==t2, f2==t1, f2==t2); a fifth has a zero-length second segment in the shared point
+            o = rng.choice(["f1t1", "f1t2", "f2t1", "f2t2"])
+            sh = a if o[:2] == "f1" else b
+            other = rg.gc_dest(sh, rng.uniform(0, 360), L * 10 ** rng.uniform(-1, 0.5))
+            if rng.random() < 0.2:
+                other = sh
+            c, d = (sh, other) if o[2:] == "t1" else (other, sh)
+            return {"fn": "segseg", "cls": kind, "a": a, "b": b, "c": c, "d": d, "L": L, "orient": o}
+        if kind == "identical":
+            c, d = rng.choice([(a, b), (b, a)])
+            if rng.random() < 0.3:
+                d = rg.gc_dest(c, rg.gc_bearing(c, d), rng.uniform(0.2, 2) * L)  # collinear overlap from a shared start
+            return {"fn": "segseg", "cls": kind, "a": a, "b": b, "c": c, "d": d, "L": L}
         if kind == "crossing":
             m = rg.gc_dest(a, brg, rng.uniform(0.1, 0.9) * L)
             b2 = rng.uniform(0, 360)
@@ -178,6 +202,28 @@ def check_segseg(ctx, case):
         ctx.violation(f"C14:segseg:point-t-not-at-relpos:{kind}", case, f"pt={pt!r}, t(u_t)={pte!r}")
     if not abs(rg.gc_dist(pf, pt) - dd) <= 2 * tol:
         ctx.violation(f"C14:segseg:points-do-not-realise-distance:{kind}", case, f"|pf-pt|={rg.gc_dist(pf, pt)!r} vs {dd!r}")
+    if case["cls"] == "shared_end":
+        # the minimum 0 is attained in the shared point, and only there unless the roads fold back onto each other
+        ctx.count(f"segseg_shared_end:{case.get('orient')}")
+        sh = a if case["orient"][:2] == "f1" else b
+        of, ot = (b if sh == a else a), (d if sh == c else c)
+        fold = False
+        ptol = tol
+        if of != sh and ot != sh:
+            dbr = abs((rg.gc_bearing(sh, of) - rg.gc_bearing(sh, ot) + 180) % 360 - 180)
+            fold = dbr < 2.0
+            # two roads leaving the shared point at angle th are closer than tol to each other up to tol/sin(th) from it:
+            # the position of the minimum is only that well conditioned
+            if dbr < 90:
+                ptol = tol / max(math.sin(math.radians(dbr)), 0.03)
+        tol_d, tol = tol, ptol
+        if not fold:
+            ctx.count("segseg_shared_end_positions_judged")
+            if not rg.gc_dist(pf, sh) <= tol:
+                ctx.violation(f"C14:segseg:shared-end-point:point-f-not-the-shared-point:{case['orient']}", case, f"pf={pf!r} shared={sh!r} u_f={uf!r}")
+            if not rg.gc_dist(pt, sh) <= tol:
+                ctx.violation(f"C14:segseg:shared-end-point:point-t-not-the-shared-point:{case['orient']}", case, f"pt={pt!r} shared={sh!r} u_t={ut!r}")
+        tol = tol_d
     # invariance under swapping the end points of either segment (u -> 1-u); closest points of (nearly) parallel
     # segments are not unique, so positions are only compared when the reference says the minimum is attained at an end
     for which, args in (("f", (b, a, c, d)), ("t", (a, b, d, c))):
@@ -265,6 +311,10 @@ def check_case(ctx, case):
         ctx.sample(case)
     elif case["fn"] == "segseg":
         check_segseg(ctx, case)
+    elif case["fn"] == "dest":
+        ctx.count("dest_long_distance")
+        ctx.nontriv([case["a"], case["b"]])
+        check_dest(ctx, case)
     else:
         check_box(ctx, case)
 
